@@ -28,7 +28,7 @@ func isBoolLocal(f *Func, id *ast.Ident) bool {
 
 func init() {
 	register(&Property{ID: "C13", Run: runC13,
-		Explain: "Per-peer state reclamation decided as an inventory with obligations: (R13.1) every struct field of the module that is a map keyed by peer.ID (directly or as the inner map of a map keyed by topic/message/IP) is enumerated from the type information on every run; each needs a reclaim site (delete of the key / of the inner entry, or replacement of the map) that is reachable in the VTA call graph from a departure root (handleDeadPeers, onClosedIncomingStream, the stream handler's deferred cleanup, the blacklist arm's callees), a periodic root (heartbeat, scorer/gater/backoff/time-cache background loops), a completion root (DeliverMessage/RejectMessage fan-out, for message-scoped maps) or its consumer (pending/queue-like maps); a new per-peer field without one fails; named exemptions: direct peers (operator configuration), blacklist state (policy); (R13.2) guard symmetry: the feature(...) guards required on every call path to a reclaimer are a subset of those on the paths to every creator of the same field (otherwise entries created for some protocol versions are never reclaimed); (R13.3) entries are created only for peers that can be reclaimed: the pending-control buffer is written only behind a successful lookup of the peer's queue, and mesh admission requires gs.peers membership (shared R07.5, known finding F8); (R13.4) protection pairing: every removal of a peer from a mesh map reaches tracer.Prune or tagTracer.untagMeshPeer for that topic (connection-manager protection released), the tag tracer's Graft/Prune map to Protect/Unprotect with the same tag; (R13.5) stream bookkeeping: the stream handler's deferred cleanup removes its inboundStreams entry when it is the current one and reports the closed stream iff it reported the new one; the extension state's closed-stream handlers delete their entries; router/scorer/gater departure handlers (shared R07.5, R10.4, R05.6) remove the peer; (R13.6) the gater deletes a peer's entry whenever its outbound stream closed, independently of the connection count it shares with other peers behind the same IP. (R13.7) every RejectMessage after ValidateMessage uses a reason on which tagTracer.RejectMessage releases the near-first entry. (R13.8) releasing partial-message peer state is not behind conditions on the handshake maps or the feature table. NOT decided: that retention periods elapse and sweeps run (timing); entries re-created by late validation callbacks after departure.",
+		Explain: "Per-peer state reclamation decided as an inventory with obligations: (R13.1) every struct field of the module that is a map keyed by peer.ID (directly or as the inner map of a map keyed by topic/message/IP) is enumerated from the type information on every run; each needs a reclaim site (delete of the key / of the inner entry, or replacement of the map) that is reachable in the VTA call graph from a departure root (handleDeadPeers, onClosedIncomingStream, the stream handler's deferred cleanup, the blacklist arm's callees), a periodic root (heartbeat, scorer/gater/backoff/time-cache background loops), a completion root (DeliverMessage/RejectMessage fan-out, for message-scoped maps) or its consumer (pending/queue-like maps); a new per-peer field without one fails; named exemptions: direct peers (operator configuration), blacklist state (policy); (R13.2) guard symmetry: the feature(...) guards required on every call path to a reclaimer are a subset of those on the paths to every creator of the same field (otherwise entries created for some protocol versions are never reclaimed); (R13.3) entries are created only for peers that can be reclaimed: the pending-control buffer is written only behind a successful lookup of the peer's queue, and mesh admission requires gs.peers membership (shared R07.5, known finding F8); (R13.4) protection pairing: every removal of a peer from a mesh map reaches tracer.Prune or tagTracer.untagMeshPeer for that topic (connection-manager protection released), the tag tracer's Graft/Prune map to Protect/Unprotect with the same tag; (R13.5) stream bookkeeping: the stream handler's deferred cleanup removes its inboundStreams entry when it is the current one and reports the closed stream iff it reported the new one; the extension state's closed-stream handlers delete their entries; router/scorer/gater departure handlers (shared R07.5, R10.4, R05.6) remove the peer; (R13.6) the gater deletes a peer's entry whenever its outbound stream closed, independently of the connection count it shares with other peers behind the same IP. (R13.7) every RejectMessage after ValidateMessage uses a reason on which tagTracer.RejectMessage releases the near-first entry. (R13.8) releasing partial-message peer state is not behind conditions on the handshake maps or the feature table. (R13.9) a stream attempt always answers the event loop with the stream or the failure, except on shutdown. NOT decided: that retention periods elapse and sweeps run (timing); entries re-created by late validation callbacks after departure.",
 		Assume:  []string{"VTA call graph over-approximates calls through stored function values", "roots are invoked by the event loop / their goroutines as analysed under C05/C14"},
 		Mutants: []Mutant{
 			{Name: "reopen-gives-up-silently", File: "comm.go", Old: "\tcase <-time.After(backoff):\n\t\tp.handleNewPeer(ctx, pid, outgoing)\n", New: "\tcase <-time.After(backoff):\n\t\tif p.host.Network().Connectedness(pid) != network.Connected {\n\t\t\treturn\n\t\t}\n\t\tp.handleNewPeer(ctx, pid, outgoing)\n", Expect: "R13.9"},
@@ -599,16 +599,46 @@ func checkValidationStateReleased(c *RuleCtx) {
 	}
 	releasing := map[string]bool{}
 	deletes := false
-	ast.Inspect(tf.Body, func(x ast.Node) bool {
-		if cc, ok := x.(*ast.CaseClause); ok {
-			for _, e := range cc.List {
-				if v := p.R(tf).Val(e); v != nil && v.Kind == "const" {
-					releasing[v.Name] = true
+	// the reasons named: case constants of a switch, or constants the reason is compared with (`reason == C || ...`),
+	// in the hook itself or in a private predicate it hands the reason to
+	var collect func(fn *Func, reasonIdx int, depth int)
+	collect = func(fn *Func, reasonIdx int, depth int) {
+		isReason := isParam(fn, reasonIdx)
+		ast.Inspect(fn.Body, func(x ast.Node) bool {
+			switch e := x.(type) {
+			case *ast.CaseClause:
+				for _, ce := range e.List {
+					if v := p.R(fn).Val(ce); v != nil && v.Kind == "const" {
+						releasing[v.Name] = true
+					}
+				}
+			case *ast.BinaryExpr:
+				if e.Op == token.EQL {
+					l, r := p.R(fn).Val(e.X), p.R(fn).Val(e.Y)
+					if isReason(l) && r != nil && r.Kind == "const" {
+						releasing[r.Name] = true
+					}
+					if isReason(r) && l != nil && l.Kind == "const" {
+						releasing[l.Name] = true
+					}
+				}
+			case *ast.CallExpr:
+				if depth > 0 {
+					return true
+				}
+				if h := p.Fn(p.CalleeName(fn.Info(), e)); h != nil && h.Body != nil && h.Pkg == fn.Pkg && h.Decl != nil && !ast.IsExported(h.Decl.Name.Name) {
+					for i, a := range e.Args {
+						if isReason(p.R(fn).Val(a)) {
+							idx := i
+							collect(h, idx, depth+1)
+						}
+					}
 				}
 			}
-		}
-		return true
-	})
+			return true
+		})
+	}
+	collect(tf, 1, 0)
 	for _, d := range p.mapDeletes(tf) {
 		if p.R(tf).Val(d.Map).IsField("tagTracer.nearFirst") {
 			deletes = true
